@@ -1,5 +1,6 @@
 (** * C12: all per-module correspondence / property checks in one place. *)
-From Irismod Require Genesis.Record Genesis.Htlc.
+From Irismod Require Genesis.Record Genesis.Htlc Genesis.Mt.
 
 Definition check_record := Genesis.Record.check_record.
 Definition check_htlc := Genesis.Htlc.check_htlc.
+Definition check_mt := Genesis.Mt.check_mt.
